@@ -1022,29 +1022,46 @@ func (in *Interp) jsonValue(t types.Type, v Value) ([]*Term, bool) {
 	case *types.Struct:
 		out := in.mkStr("{").b
 		first := true
-		sv := v.(*StructV)
-		for i := 0; i < u.NumFields(); i++ {
-			f := u.Field(i)
-			if !f.Exported() || f.Embedded() {
-				if f.Embedded() {
-					return nil, false
+		var emit func(st *types.Struct, sv *StructV) bool
+		emit = func(st *types.Struct, sv *StructV) bool {
+			for i := 0; i < st.NumFields(); i++ {
+				f := st.Field(i)
+				if st.Tag(i) != "" {
+					return false
 				}
-				continue
+				if f.Embedded() {
+					// exported fields of embedded structs are promoted; embedded pointers/interfaces are outside the model
+					es, isStruct := f.Type().Underlying().(*types.Struct)
+					if !isStruct {
+						if !f.Exported() {
+							continue
+						}
+						return false
+					}
+					if !emit(es, sv.f[i].(*StructV)) {
+						return false
+					}
+					continue
+				}
+				if !f.Exported() {
+					continue
+				}
+				fb, ok := in.jsonValue(f.Type(), sv.f[i])
+				if !ok {
+					return false
+				}
+				if !first {
+					out = append(out, in.tt.b8[','])
+				}
+				first = false
+				out = append(out, in.jsonString(in.mkStr(f.Name()))...)
+				out = append(out, in.tt.b8[':'])
+				out = append(out, fb...)
 			}
-			if u.Tag(i) != "" {
-				return nil, false
-			}
-			fb, ok := in.jsonValue(f.Type(), sv.f[i])
-			if !ok {
-				return nil, false
-			}
-			if !first {
-				out = append(out, in.tt.b8[','])
-			}
-			first = false
-			out = append(out, in.jsonString(in.mkStr(f.Name()))...)
-			out = append(out, in.tt.b8[':'])
-			out = append(out, fb...)
+			return true
+		}
+		if !emit(u, v.(*StructV)) {
+			return nil, false
 		}
 		return append(out, in.tt.b8['}']), true
 	case *types.Pointer:
